@@ -182,6 +182,37 @@ theorem C03_codeflag_refuses_out_of_range (dd : DDesc) (n : Nat) (s : St) (i : I
     exact C19_refuses_unfit [] i n h
   rw [this]; rfl
 
+/-- Every refusal of the numeric / code-flag encoder primitives is the non-library error family
+    (ValueError / IndexError / TypeError of the real code), whatever the cause: no value left,
+    a non-positive or > 64-bit-missing width, a value of the wrong type, or a value out of range. -/
+theorem C03_refusals_are_other (dd : DDesc) (nbits scale ref : Int) (n : Nat) (s : St) (e : Err) :
+    (encNumericU dd nbits scale ref s = .error e → e = .other) ∧
+    (encCodeflagU dd n s = .error e → e = .other) := by
+  constructor
+  · intro h
+    cases hv : s.curVal with
+    | none => rw [encNumericU_noval dd nbits scale ref s hv] at h; cases h; rfl
+    | some v =>
+      cases hn : natWidth nbits with
+      | error e' =>
+        unfold natWidth at hn
+        split at hn
+        · next hle => rw [encNumericU_badwidth dd nbits scale ref s v hv hle] at h; cases h; rfl
+        · cases hn
+      | ok n' =>
+        rw [encNumericU_eq dd nbits scale ref s v n' hv hn] at h
+        cases hf : numericField v scale ref n' with
+        | error e' => rw [hf] at h; cases h; exact numericField_error hf
+        | ok f => rw [hf] at h; cases h
+  · intro h
+    cases hv : s.curVal with
+    | none => rw [encCodeflagU_noval dd n s hv] at h; cases h; rfl
+    | some v =>
+      rw [encCodeflagU_eq dd n s v hv] at h
+      cases hf : codeflagField v n with
+      | error e' => rw [hf] at h; cases h; exact codeflagField_error hf
+      | ok f => rw [hf] at h; cases h
+
 /-- The one documented exception: a value that quantises to the field's all-ones pattern IS written
     (it is in range) and reads back as missing. -/
 theorem C03_all_ones_is_missing (dd : DDesc) (scale ref : Int) (n : Nat) (s : St) (v : Val) (q : Int)
@@ -197,6 +228,23 @@ theorem C03_all_ones_is_missing (dd : DDesc) (scale ref : Int) (n : Nat) (s : St
     rfl
   · intro sd suf hb
     have := (C03_element_fixpoint dd scale ref n (2 ^ n - 1) (by omega) h64 hp).1 sd suf
+      (by rw [toBits_max]; exact hb)
+    simpa [canonUInt, h1, numVal] using this
+
+/-- Missing reads back as missing: a missing value is written as `n` ones (any width 1..64) and, for a
+    field wider than one bit, those bits decode to missing.  (For `n = 1` the single `1` decodes to the
+    number 1: FM-94 has no missing value for one-bit fields; see the example at the end of the file.) -/
+theorem C03_missing_roundtrip (dd : DDesc) (scale ref : Int) (n : Nat) (h0 : 0 < n) (h64 : n ≤ 64) :
+    (∀ se : St, se.curVal = some .missing →
+      encNumericU dd (n : Int) scale ref se = .ok (se.afterWrite dd (ones n))) ∧
+    (1 < n → ∀ (sd : St) (suf : Bits), sd.bits = ones n ++ suf →
+      decNumericU dd (n : Int) scale ref sd = .ok (sd.afterRead dd suf .missing)) := by
+  have hp : 2 ^ n - 1 < 2 ^ n := by have := Nat.two_pow_pos n; omega
+  refine ⟨fun se hv => ?_, fun h1 sd suf hb => ?_⟩
+  · rw [encNumericU_eq dd _ scale ref se _ n hv (natWidth_ofNat n h0),
+      numericField_missing scale ref n h0 h64]
+    rfl
+  · have := (C03_element_fixpoint dd scale ref n (2 ^ n - 1) h0 h64 hp).1 sd suf
       (by rw [toBits_max]; exact hb)
     simpa [canonUInt, h1, numVal] using this
 
@@ -251,6 +299,45 @@ theorem C03_element_roundtrip_numeric (dd : DDesc) (nbits scale ref : Int) (se s
           exact ⟨q, hq, by omega⟩
         · intro sd suf h64 hb
           exact (C03_element_fixpoint dd scale ref n raw h0 h64 hr).1 sd suf hb
+
+/-- Headline form for a non-missing value: if the encoder accepts `v`, then `v` quantises to some `q`
+    (within half a unit of `v·10^scale`, by `C03_quantisation_bound`), exactly one `n`-bit field is
+    written, and decoding it gives back `q/10^scale` — except when `q − ref` is the all-ones pattern
+    of a field wider than one bit, which reads back as missing. Nothing else can happen. -/
+theorem C03_numeric_reads_back (dd : DDesc) (nbits scale ref : Int) (se se' : St) (v : Val)
+    (h : encNumericU dd nbits scale ref se = .ok se') (hv : se.curVal = some v) (hm : v ≠ .missing) :
+    ∃ (n : Nat) (q : Int) (f : Bits),
+      nbits = (n : Int) ∧ quantise v scale = .ok q ∧ f.length = n ∧ se' = se.afterWrite dd f ∧
+      0 ≤ q - ref ∧ q - ref < (2 : Int) ^ n ∧
+      ∀ (sd : St) (suf : Bits), n ≤ 64 → sd.bits = f ++ suf →
+        decNumericU dd nbits scale ref sd =
+          .ok (sd.afterRead dd suf
+            (if 1 < n ∧ q - ref = (2 : Int) ^ n - 1 then .missing else scaleVal q scale)) := by
+  obtain ⟨v', n, raw, hv', hn, h0, hr, hs, _, hval, hdec⟩ :=
+    C03_element_roundtrip_numeric dd nbits scale ref se se' h
+  rw [hv] at hv'
+  injection hv' with hv'
+  subst hv'
+  obtain ⟨q, hq, hqr⟩ := hval hm
+  have hr' : ((raw : Nat) : Int) < (2 : Int) ^ n := by exact_mod_cast hr
+  refine ⟨n, q, toBits n raw, hn, hq, toBits_length n raw, hs, by omega, by omega, ?_⟩
+  intro sd suf h64 hb
+  rw [hdec sd suf h64 hb, C03_canon_value]
+  have hp : (1 : Int) ≤ (2 : Int) ^ n := by
+    have := Nat.two_pow_pos n
+    exact_mod_cast this
+  have hc : (raw = 2 ^ n - 1) ↔ (q - ref = (2 : Int) ^ n - 1) := by
+    have hcast : ((2 ^ n - 1 : Nat) : Int) = (2 : Int) ^ n - 1 := by
+      have h1 : 1 ≤ 2 ^ n := Nat.two_pow_pos n
+      rw [Int.ofNat_sub h1]
+      simp
+    constructor
+    · intro hh; rw [hqr, hh, hcast]; omega
+    · intro hh
+      have : ((raw : Nat) : Int) = ((2 ^ n - 1 : Nat) : Int) := by rw [hcast]; omega
+      exact_mod_cast this
+  have hq' : (raw : Int) + ref = q := hqr.symm
+  simp only [hc, hq']
 
 /-- Code / flag table field (also associated 204 and skipped 206 fields): the integer itself comes back,
     all ones (width > 1) comes back as missing. -/
